@@ -143,6 +143,7 @@ def registry():
         ('apply_static_mods', lambda a: pt.apply_static_mods(a, {'K': ['Acetyl']}, nterm_mods='Formula:C2', mode='append')),
         ('apply_static_mods(annotation)', lambda a: pt.apply_static_mods(a, {'P': [1.5]}, cterm_mods={'': [2]}, return_type='annotation')),
         ('apply_variable_mods', lambda a: pt.apply_variable_mods(a, {'K': [['Methyl']]}, 1, nterm_mods='Acetyl')),
+        ('apply_variable_mods(annotation,max_mods=0)', lambda a: pt.apply_variable_mods(a, {'[ST]': [['Phospho']]}, 0, return_type='annotation')),
         ('apply_variable_mods(annotation)', lambda a: pt.apply_variable_mods(a, {'[ST]': [['Phospho']]}, 2, return_type='annotation', mode='append')),
         ('serialize', lambda a: pt.serialize(a, include_plus=True)),
         ('a.slice', lambda a: a.slice(1, len(a.sequence))),
